@@ -43,7 +43,7 @@ def run(ctx):
                samples=samples, histogram=hist, traces_validated_against_impl=ncases)
     # end to end: block timestamp = median of the famous witnesses' claimed times, within the honest range (cmd/sim oracle)
     e2e = dict(blocks_checked=0, blocks_with_byzantine_famous_witness=0, histories=0)
-    for fl in ("static", "advsigs"):
+    for fl in ("static", "advsigs", "dyn"):   # dyn: membership changes, removed validators that keep gossiping
         if fl == "advsigs":
             simcommon.FLAVOURS["advsigs"] = C09._tier_flags(ctx["tier"])
         res = simcommon.run(ctx, fl)
